@@ -734,6 +734,7 @@ type evLine struct {
 	Line zg.Line   `json:"line"`
 	Recs []zg.Rec5 `json:"recs"`
 	Err  bool      `json:"err"`
+	Fam  string    `json:"fam,omitempty"` // hostile family (for the finding key; the spec does not look at it)
 }
 
 // labels: plain ones, and ones holding the octets whose text form is special (a dot as last / first / middle
@@ -988,7 +989,7 @@ func record(out string, n int) {
 			if recs == nil {
 				recs = []zg.Rec5{}
 			}
-			w.Emit(evLine{"line", j + 1, rf.Lines[j], recs, o.Err != nil && j == last})
+			w.Emit(evLine{"line", j + 1, rf.Lines[j], recs, o.Err != nil && j == last, ""})
 		}
 		nrec += len(o.Recs)
 		if z < 3 {
